@@ -1,3 +1,4 @@
+import Noodles.Props.C07Chunk
 import Noodles.Props.C07Sam
 import Noodles.Props.C07Enc
 import Noodles.Cram.Features
